@@ -215,9 +215,15 @@ def evaluate(case):
         return (kind + ":constructor-returned-another-object", dict(s=s, d=d, got=repr(model)[:200])), accepted, ok
     if accepted == readable:
         return None, accepted, ok
-    if not accepted:
+    if not accepted and kind != "string":
+        m = minimal_name(kind, s, False)
         res = (
-            "%s:rejected-but-readable:%s" % (kind, main_class(kind, s)),
+            "%s:rejected-but-readable:%s" % (kind, main_class(kind, m)),
+            dict(s=s, d=d, text=text, constructor=cerr, read=describe(forms, rerr), smallest_name_failing_the_same_way=m),
+        )
+    elif not accepted:
+        res = (
+            "string:rejected-but-readable:" + ("closer-inside-content" if "]" + d + "]" in s else "no-closer-in-content"),
             dict(s=s, d=d, text=text, constructor=cerr, read=describe(forms, rerr)),
         )
     elif kind == "string":
@@ -226,11 +232,37 @@ def evaluate(case):
             dict(s=s, d=d, text=text, expected="ValueError from String(%r, brackets=%r)" % (s, d), read=describe(forms, rerr)),
         )
     else:
+        m = minimal_name(kind, s, True)
         res = (
-            "%s:accepted-but-reads-as:%s:%s" % (kind, ok.split(":")[0], main_class(kind, s)),
-            dict(s=s, d=d, text=text, expected="ValueError from the constructor", read=describe(forms, rerr)),
+            "%s:accepted-but-unreadable:%s" % (kind, main_class(kind, m)),
+            dict(s=s, d=d, text=text, expected="ValueError from the constructor", reads_as=ok, read=describe(forms, rerr),
+                 smallest_name_failing_the_same_way=m),
         )
     return res, accepted, ok
+
+
+def disagrees(kind, s, accepted):
+    """Does Symbol/Keyword(s) disagree with the reader in the given direction?"""
+    case = dict(kind=kind, s=s)
+    model, _ = construct(case)
+    if (model is not None) != accepted:
+        return False
+    forms, rerr = observe(text_of(case))
+    return (obs_kind(kind, forms, rerr, s, None) == "the-model") != accepted
+
+
+def minimal_name(kind, s, accepted):
+    """Greedy deletion of characters while the same kind of disagreement remains: the bucket is named after what is left, so that
+    one defect does not fan out over the features of the strings it was found in. Only used to name a failure."""
+    changed = True
+    while changed and len(s) > 0:
+        changed = False
+        for i in range(len(s)):
+            cand = s[:i] + s[i + 1:]
+            if disagrees(kind, cand, accepted):
+                s, changed = cand, True
+                break
+    return s
 
 
 def check_case(case):
